@@ -41,6 +41,7 @@ def main() -> int:
     t0 = time.time()
 
     results = []
+    rule_errors = []
     digest = ""
     extra = {}
     try:
@@ -59,16 +60,28 @@ def main() -> int:
         rule_fns = rules_for(prop)
         if not rule_fns:
             raise AnalysisError(f"no rules registered for {prop}")
+        # every rule runs; a rule that cannot proceed (vanished anchor, unknown idiom, instance count below
+        # its floor) is remembered and makes the run an ANALYSIS-ERROR - unless another rule reports a
+        # violation, which stands on its own
         for fn in rule_fns:
-            rr = fn(ctx)
+            try:
+                rr = fn(ctx)
+            except AnalysisError as err:
+                rule_errors.append(str(err))
+                continue
             rr.prop = prop
             for f in rr.findings:
                 f.prop = prop
-            rr.check_floor()
+            try:
+                rr.check_floor()
+            except AnalysisError as err:
+                rule_errors.append(str(err))
             results.append(rr)
         if args.tier == "thorough":
             from rules import thorough_rules_for
 
+            if rule_errors and not any(rr.findings for rr in results):
+                raise AnalysisError("; ".join(rule_errors))
             for fn in thorough_rules_for(prop):
                 rr = fn(ctx)
                 rr.prop = prop
@@ -92,6 +105,8 @@ def main() -> int:
                     raise AnalysisError(
                         "checker self-test failed: " + "; ".join(st["failures"][:5])
                     )
+        if rule_errors and not any(rr.findings for rr in results):
+            raise AnalysisError("; ".join(rule_errors))
     except AnalysisError as err:
         print(f"ANALYSIS-ERROR property={prop} {err}")
         write_evidence(prop, args.tier, seed, results, [], [], time.time() - t0,
@@ -132,6 +147,10 @@ def main() -> int:
         return 0
 
     clean_replays(prop)
+    for e in rule_errors:
+        print(f"NOTE: a rule could not be decided on this tree (it would be an ANALYSIS-ERROR on its own): {e}")
+    if rule_errors:
+        extra["undecided_rules"] = rule_errors
     for i, f in enumerate(violations):
         path = write_replay(prop, i, f)
         print(f.text())
